@@ -46,14 +46,25 @@ def upper_pow_two(n):
     return p
 
 
+BIG_OFFSETS = [2**31, 2**32, 2**63]
+BIG_BASES = [1, 2, 3, 6]
+
+
 def pick_value(rng):
+    """CONVENTIONS addendum 3: besides small values and duplicates, values that differ from a small value (and
+    from each other) by exactly 2^31, 2^32 or 2^63, and values near 2^64 - 1 — a comparison that truncates a
+    pointer difference to int / 32 bits makes such elements compare equal"""
     r = rng.random()
     if r < 0.06:
         return 0            # NULL element
-    if r < 0.5:
+    if r < 0.42:
         return rng.randint(1, 6)    # duplicates likely
-    if r < 0.6:
+    if r < 0.52:
         return rng.choice([10, 11, 12, 21, 22, 31, 16, 26])   # equal modulo 10 (contains_value)
+    if r < 0.70:
+        return rng.choice(BIG_BASES) + rng.choice(BIG_OFFSETS + [2**32 + 2**31, 2**63 + 2**32])
+    if r < 0.76:
+        return 2**64 - 1 - rng.choice([0, 1, 2, 2**32, 2**31])
     return rng.randint(1, 99)
 
 
@@ -130,7 +141,7 @@ class DequeGen:
         op = only or rng.choices(CORE_OPS, CORE_W)[0]
         if fault and not only and rng.random() < 0.5:
             op = rng.choice(["add_last", "add_first", "add_at", "trim", "add"])
-        noout = " noout=1" if rng.random() < 0.15 else ""
+        noout = " noout=1" if rng.random() < 0.3 else ""
         v = pick_value(rng)
         fail = ""
         refused = False
@@ -418,7 +429,7 @@ class DequeGen:
             return
         d = s.clone()
         if kind == "mk_copy_deep":
-            d.items = [x + 1000 for x in d.items]
+            d.items = [(x + 1000) % 2**64 for x in d.items]
         elif kind == "mk_filter":
             d.items = [x for x in d.items if x % 2 == 0]
         sims[to] = d
@@ -491,7 +502,8 @@ class DequeGen:
                 singles = ["add_first 77", "add_last 77", "remove_first", "remove_last", "reverse", "trim",
                            "filter_mut", "remove_all", "foreach", "get_first", "get_last", "size",
                            "remove 12", "remove 99", f"remove {10 + s}", "index_of 12", f"index_of {10 + s}",
-                           "contains 11", "contains_value 21", "remove_last noout=1"]
+                           "contains 11", "contains_value 21", "remove_last noout=1", "remove_first noout=1",
+                           "remove 12 noout=1", "remove 99 noout=1"]
                 if focus == "fault":
                     singles = ["add_first 77", "add_last 77", "trim"]
                 if focus == "growth":
@@ -508,7 +520,18 @@ class DequeGen:
                         continue
                     out.append(pre + [f"remove_at {i}", "destroy"])
                     out.append(pre + [f"replace_at 77 {i}", "destroy"])
+                    if cap <= 4 or i in (0, s - 1, s):       # the same with a NULL out-pointer
+                        out.append(pre + [f"remove_at {i} noout=1", "get_at 0", "destroy"])
+                        out.append(pre + [f"replace_at 77 {i} noout=1", "get_at 0", "destroy"])
                     out.append(pre + [f"get_at {i}", "destroy"])
+            # lookups and removal by value among elements that differ by exactly 2^31 / 2^32 / 2^63 and near 2^64-1
+            big = [5, 5 + 2**32, 5 + 2**31, 5 + 2**63, 2**64 - 1, 2**64 - 1 - 2**32, 5 + 2**32]
+            for cap in (8, 16):
+                for f in (0, 3, cap - 1):
+                    pre = self.layout(cap, f, 0) + [f"add_last {v}" for v in big]
+                    for v in big + [5 + 2**33, 2**32, 0]:
+                        for o in (f"contains {v}", f"index_of {v}", f"remove {v}", f"remove {v} noout=1", f"contains_value {v}"):
+                            out.append(pre + [o, "get_at 0", "foreach", "destroy"])
             # configured capacities that are not powers of two, then growth through several doublings
             for cc in (0, 1, 3, 5, 6, 7, 9, 12, 17, 33):
                 ops = [f"new cap={cc}"]
@@ -534,6 +557,8 @@ class DequeGen:
                     tail = ["it_next"] * (s - k + 2)
                     out.append(pre + head + ["it_remove", "it_index"] + tail + ["destroy"])
                     out.append(pre + head + ["it_replace 77", "it_index"] + tail + ["destroy"])
+                    out.append(pre + head + ["it_remove noout=1", "it_index"] + tail + ["destroy"])
+                    out.append(pre + head + ["it_replace 77 noout=1", "it_index"] + tail + ["destroy"])
                     if not d3_excluded(k, s) or k == s:
                         out.append(pre + head + ["it_add 77", "it_index"] + tail + ["destroy"])
                     out.append(pre + head + ["it_remove", "it_remove", "it_next", "it_replace 55"] + tail + ["destroy"])
@@ -547,6 +572,8 @@ class DequeGen:
                         tail = ["zit_next"] * (m - k + 2)
                         out.append(pre + pre2 + head + ["zit_remove", "zit_index"] + tail + ["destroy"])
                         out.append(pre + pre2 + head + ["zit_replace 77 88"] + tail + ["destroy"])
+                        out.append(pre + pre2 + head + ["zit_remove noout=1", "zit_index"] + tail + ["destroy"])
+                        out.append(pre + pre2 + head + ["zit_replace 77 88 noout=1"] + tail + ["destroy"])
                         if k < s and k < s2 and not d3_excluded(k, s) and not d3_excluded(k, s2):
                             out.append(pre + pre2 + head + ["zit_add 77 88", "zit_index"] + tail + ["destroy"])
         if focus in ("iter", "growth", "all"):
